@@ -30,9 +30,23 @@ for m in sorted(glob.glob(os.path.join(ROOT, "seeded", "*", "meta.json"))):
     srows.append("| %s | %s | %s | %s | %s |" % (d["name"], d["breaks_property"], esc(title[:140]),
                  "yes" if d.get("confirmed") or (d.get("demo_clean_exit") == 0 and d.get("demo_mutated_exit") not in (0, None)) else "no", "; ".join(caught)))
 t10 = "| seed | property | change (title of its README) | demo passes clean / fails mutated | checks run against it (state at the time it was last run) |\n|---|---|---|---|---|\n" + "\n".join(srows)
+# section 11: measured trusted base per property, from the evidence files the checks wrote on /repo
+trows = []
+allax = set()
+for e in sorted(glob.glob(os.path.join(ROOT, "evidence", "C*.json"))):
+    d = json.load(open(e)); c = d["coverage"]
+    pa = c.get("print_assumptions", {})
+    ax = sorted({a for v in pa.values() for a in v})
+    allax |= set(ax)
+    closed = sum(1 for v in pa.values() if not v)
+    trows.append("| %s | %s | %d (%d closed under the global context) | %s | %s/%s | %s | %s |" % (
+        d["property_id"], d["level"], len(pa), closed, esc(", ".join(a.split(".")[-1] for a in ax)) or "none",
+        c.get("discharged"), c.get("obligations"), c.get("evaluations", ""), c.get("traces_validated_against_impl", "")))
+t11 = ("| property | level | property theorems in Props.v | axioms (union of `Print Assumptions` over them) | obligations discharged | evaluations | cases compared with the implementation |\n|---|---|---|---|---|---|---|\n"
+       + "\n".join(trows) + "\n\nAll axioms seen: " + ", ".join("`%s`" % a for a in sorted(allax)) + ".")
 p = os.path.join(ROOT, "DESIGN.md")
 s = open(p).read()
-for tag, t in (("FINDINGS", t9), ("SEEDS", t10)):
+for tag, t in (("FINDINGS", t9), ("SEEDS", t10), ("TRUSTED", t11)):
     a, b = "<!-- AUTOGEN:%s:BEGIN -->" % tag, "<!-- AUTOGEN:%s:END -->" % tag
     if a in s:
         s = s[:s.index(a) + len(a)] + "\n" + t + "\n" + s[s.index(b):]
